@@ -76,7 +76,8 @@ FloatEq == {[fam |-> "floateq", a |-> l, b |-> r, op |-> o,
                 l \in {"x", "1.5", "2"}, r \in {"x", "1.5", "2"}, o \in {"==", "~=", "<", "+"}}
 
 \* if c1 then elseif c2 then end : repeated condition (19)
-Conds == {"x == 1", "x == 2", "y", "x"}
+\* (x < 1 / x > 1 / x <= 1: the same operands under different operators are different conditions)
+Conds == {"x == 1", "x == 2", "y", "x", "x < 1", "x > 1"}
 DupIf == {[fam |-> "dupif", a |-> c1, b |-> c2, op |-> c3,
            must |-> IF Cardinality({c1, c2, c3}) < 3 THEN {19} ELSE {},
            times |-> IF Cardinality({c1, c2, c3}) = 1 THEN 2 ELSE 1,
